@@ -894,12 +894,17 @@ func (o *Node) setNotFound(path Path, n *Node) error {
 		size := int(thrift.BinaryEncoding{}.DecodeInt32(buf))
 		thrift.BinaryEncoding{}.EncodeInt32(buf, int32(size+1))
 	case thrift.MAP:
+		// the key is encoded with the map's KEY type, which is the first byte of the map header (kt 1B + vt 1B + size 4B) before o.v
+		kt := thrift.Type(*(*byte)(rt.SubPtr(o.v, uintptr(6))))
+		key := path.ToRaw(kt)
+		if key == nil {
+			return errNode(meta.ErrInvalidParam, "path doesn't fit the map's key type", nil)
+		}
 		// modify the original size
 		buf := rt.BytesFrom(rt.SubPtr(o.v, uintptr(4)), 4, 4)
 		size := int(thrift.BinaryEncoding{}.DecodeInt32(buf))
 		thrift.BinaryEncoding{}.EncodeInt32(buf, int32(size+1))
 		// add key bytes
-		key := path.ToRaw(n.t)
 		src := n.raw()
 		buf = make([]byte, 0, len(key)+len(src))
 		buf = append(buf, key...)
